@@ -436,7 +436,9 @@ def network(ctx, fxs):
     ctx.ob("C17.net.prefix-width", "NetworkInterfaceBuffered", not det, "; ".join(det), fa.loc(), "prefix", fnkey=asm["key"])
 
     ctx.rule("C17.net.fifo", "send queue: add() appends at the back, assemble() takes from the front; receive queue: add() appends "
-             "at the back, popMsg()/popVec()/erase() take from the front; nothing else inserts or removes")
+             "at the back, popMsg()/popVec()/erase() take from the front; nothing else inserts or removes. NetworkIOMPI: the "
+             "in-flight send, in-flight receive and completed-receive deques are only appended at the back and consumed from the "
+             "front, and a receive is handed over only when it is the oldest in flight")
     det = []
     table = [("sendBuffer::add", {"emplace_back", "push_back", "empty"}, "messages"),
              ("sendBuffer::assemble", {"front", "pop_front", "empty", "begin", "end"}, "messages"),
@@ -470,6 +472,34 @@ def network(ctx, fxs):
             det.append("%s mutates a queue: %s" % (short, e.get("name")))
     ctx.floor("queue operations seen", nq, 12)
     ctx.ob("C17.net.fifo", "NetworkInterfaceBuffered", not det, "; ".join(det[:4]), fa.loc(), "fifo")
+    # the MPI layer underneath: in-flight sends, in-flight receives and completed receives are deques used strictly as queues;
+    # a receive is handed over only when it is the oldest in-flight one (MPI matches in posting order per source and tag, so
+    # completing out of queue order would let a later message overtake an earlier one)
+    det = []
+    nio = [f for f in fxs.functions if "NetworkIOMPI" in f["qn"] and f["kind"] != "pattern"]
+    qops = 0
+    fifo_ok = {"empty", "front", "back", "pop_front", "emplace_back", "push_back", "size"}
+    for f in nio:
+        fn = ctx.fn(f)
+        al = fn.aliases()
+        short = f["qn"].split("NetworkIOMPI::")[-1]
+        for _, e in fn.events(lambda e: e.get("k") == "call" and re.search(r"(^|\.|->)(inflight|done)$", S(e.get("recv") or {}, al))):
+            qops += 1
+            if e.get("name") not in fifo_ok:
+                det.append("%s uses %s.%s (line %s): the queue is no longer consumed strictly from the front" % (
+                    short, S(e.get("recv"), al).split(".")[-1].split("->")[-1], e.get("name"), e.get("l")))
+        if short.endswith("recvQueueTy::probe"):
+            mv = [e for _, e in fn.events(lambda e: e.get("k") == "call" and e.get("name") == "emplace_back" and
+                                          S(e.get("recv") or {}, al).endswith("done"))]
+            for e in mv:
+                src = [S(x, al) for x in e.get("a", [])]
+                if not src or not all("inflight.front()" in x for x in src):
+                    det.append("probe hands over %s, not the oldest in-flight receive" % src)
+            if not mv:
+                det.append("probe never hands a completed receive over")
+    ctx.floor("NetworkIOMPI queue operations seen", qops, 10)
+    if nio:
+        ctx.ob("C17.net.fifo", "NetworkIOMPI", not det, "; ".join(det[:4]), "%s:%s" % (nio[0]["file"], nio[0]["line"]), "fifo-mpi")
 
     ctx.rule("C17.net.lock", "recvBuffer: the public entry points popMsg() and add() hold qlock for their whole body and the private "
              "helpers that touch `data` / `frontOffset` are called only from popMsg(); sendBuffer: `messages` is touched only while "
